@@ -33,7 +33,7 @@ type SocksCase struct {
 	UseUDP bool   `json:"useUDP,omitempty"`
 }
 
-const nTargets = 12
+const nTargets = 13
 
 var exemplars = [][]byte{
 	{5, 1, 0, 1, 93, 184, 216, 34, 0, 80},                                           // CONNECT ipv4
@@ -426,6 +426,79 @@ func propSocks(c SocksCase) (o pbt.Outcome) {
 		case <-time.After(3 * time.Second):
 			a.Close()
 			udpConn.Close()
+			<-done
+		}
+	case 12:
+		// RFC 1928 datagram relay mode: a well-formed ASSOCIATE, then hostile
+		// datagrams to the relay port from the client's socket and from a stranger's
+		cfg := &socks5.Config{HandshakeTimeout: 300 * time.Millisecond, UDPAssociateMode: socks5.UDPAssociateModeDatagram, Resolver: noResolver{}}
+		srv, err := socks5.New(cfg)
+		if err != nil {
+			o.Failf("harness", "socks5.New: %v", err)
+			return
+		}
+		sn := simnet.NewStreamNet(simnet.StreamOpts{})
+		ln, _ := sn.Listen(context.Background(), "tcp", "10.0.0.1:1080")
+		defer ln.Close()
+		go func() {
+			conn, err := sn.DialContext(context.Background(), "tcp", "10.0.0.1:1080")
+			if err != nil {
+				return
+			}
+			defer conn.Close()
+			writeChunks(conn, append([]byte{5, 1, 0}, exemplars[1]...), c.Chunk)
+			rep := make([]byte, 12)
+			conn.SetReadDeadline(time.Now().Add(time.Second))
+			if _, err := io.ReadFull(conn, rep); err != nil || rep[3] != 0 {
+				return
+			}
+			port := int(rep[10])<<8 | int(rep[11])
+			to := &net.UDPAddr{IP: net.IPv4(127, 0, 0, 1), Port: port}
+			cl, err := net.ListenUDP("udp4", &net.UDPAddr{IP: net.IPv4(127, 0, 0, 1)})
+			if err != nil {
+				return
+			}
+			defer cl.Close()
+			stranger, err := net.ListenUDP("udp4", &net.UDPAddr{IP: net.IPv4(127, 0, 0, 1)})
+			if err != nil {
+				return
+			}
+			defer stranger.Close()
+			cut := func(b []byte) []byte {
+				if len(b) > 60000 {
+					return b[:60000]
+				}
+				return b
+			}
+			// the stranger's address as a destination, so that its datagrams are relayed back
+			sp := stranger.LocalAddr().(*net.UDPAddr).Port
+			toStranger := []byte{0, 0, 0, 1, 127, 0, 0, 1, byte(sp >> 8), byte(sp), 'h', 'i'}
+			order := [][2]interface{}{{cl, cut(c.Data)}, {stranger, cut(c.Reply)}, {cl, toStranger}, {stranger, cut(c.Data)}, {cl, cut(c.Reply)}, {stranger, []byte{}}, {cl, []byte{}}}
+			if c.UseUDP {
+				// the stranger speaks first and is pinned as the client if its datagram parses
+				order[0], order[1] = order[1], order[0]
+			}
+			for _, x := range order {
+				x[0].(*net.UDPConn).WriteToUDP(x[1].([]byte), to)
+				time.Sleep(time.Millisecond)
+			}
+			time.Sleep(20 * time.Millisecond)
+		}()
+		conn, _ := ln.Accept()
+		done := make(chan struct{})
+		go func() {
+			defer close(done)
+			defer func() {
+				if r := recover(); r != nil {
+					o.Failf("panic/target-12", "ServeConn (datagram relay) panicked on datagrams % x / % x: %v", trunc(c.Data), trunc(c.Reply), r)
+				}
+			}()
+			srv.ServeConn(conn)
+		}()
+		select {
+		case <-done:
+		case <-time.After(5 * time.Second):
+			conn.Close()
 			<-done
 		}
 	}
